@@ -16,7 +16,10 @@ static const char *KSPEC[NKEY] = { "oct:32", "oct:64", "rsa:2048", "rsa:2048", "
 static const int KALG[NKEY] = { JWT_ALG_HS256, JWT_ALG_HS512, JWT_ALG_RS256, JWT_ALG_PS256, JWT_ALG_ES256, JWT_ALG_ES384, JWT_ALG_ES512, JWT_ALG_EDDSA, JWT_ALG_EDDSA };
 static vh_key_t K[NKEY];
 static jwk_set_t *ring;			/* the one shared keyring */
-static const jwk_item_t *PRIV[NKEY], *PUB[NKEY];
+static const jwk_item_t *PRIV_B[NKEY], *PUB_B[NKEY];	/* private copy for the sequential baseline */
+static const jwk_item_t *PRIV_S[NKEY], *PUB_S[NKEY];	/* the shared keyring: first touched by the concurrent phase */
+static const jwk_item_t **PRIV = PRIV_B, **PUB = PUB_B;	/* switched only while no worker thread exists */
+static jwk_set_t *basering, *kidring_b;
 static char *TOK_OK[NKEY], *TOK_BAD[NKEY], *TOK_EXPIRED[NKEY], *TOK_KID[NKEY];
 static jwk_set_t *kidring;		/* second shared keyring: public keys with kid "k<i>", looked up from callbacks */
 
@@ -142,8 +145,8 @@ int main(int argc, char **argv)
 	for (int k = 0; k < NKEY; k++) {
 		char hdr[64];
 		if (vh_key_gen(&K[k], KSPEC[k], &rng)) vh_harness_fail("keygen");
-		PRIV[k] = vh_key_load(&K[k], 1, NULL, &ring);
-		PUB[k] = vh_key_load(&K[k], K[k].kind == VH_K_OCT, NULL, &ring);
+		PRIV_B[k] = vh_key_load(&K[k], 1, NULL, &basering);
+		PUB_B[k] = vh_key_load(&K[k], K[k].kind == VH_K_OCT, NULL, &basering);
 		snprintf(hdr, sizeof(hdr), "{\"alg\":\"%s\",\"typ\":\"JWT\"}", vh_alg_name(KALG[k]));
 		TOK_OK[k] = vh_ref_token(&K[k], KALG[k], hdr, "{\"iss\":\"c18\",\"exp\":1700009999}");
 		TOK_BAD[k] = vh_ref_token(&K[k], KALG[k], hdr, "{\"iss\":\"c18\",\"exp\":1700009999,\"x\":1}");
@@ -153,7 +156,7 @@ int main(int argc, char **argv)
 			char kid[16], *jwk, hk[96];
 			snprintf(kid, sizeof(kid), "k%d", k);
 			jwk = vh_key_jwk(&K[k], K[k].kind == VH_K_OCT, NULL, kid, NULL);
-			kidring = jwks_load(kidring, jwk);
+			kidring_b = jwks_load(kidring_b, jwk);
 			free(jwk);
 			snprintf(hk, sizeof(hk), "{\"alg\":\"%s\",\"kid\":\"%s\"}", vh_alg_name(KALG[k]), kid);
 			TOK_KID[k] = vh_ref_token(&K[k], KALG[k], hk, "{\"iss\":\"c18\"}");
@@ -176,9 +179,22 @@ int main(int argc, char **argv)
 				T[t].ops[i] = (op_t){ (int)vh_below(&rng, 3), k, (int)vh_below(&rng, 6) };
 			}
 		}
-		/* sequential baseline (no injected delays) */
+		/* a fresh shared keyring per repeat: its items are first used by the worker threads, concurrently */
+		ring = NULL; kidring = NULL;
+		for (int k = 0; k < NKEY; k++) {
+			char kid[16], *jwk;
+			PRIV_S[k] = vh_key_load(&K[k], 1, NULL, &ring);
+			PUB_S[k] = vh_key_load(&K[k], K[k].kind == VH_K_OCT, NULL, &ring);
+			snprintf(kid, sizeof(kid), "k%d", k);
+			jwk = vh_key_jwk(&K[k], K[k].kind == VH_K_OCT, NULL, kid, NULL);
+			kidring = jwks_load(kidring, jwk);
+			free(jwk);
+		}
+		/* sequential baseline (no injected delays) on the private copies */
+		{ jwk_set_t *shared_kid = kidring; kidring = kidring_b; PRIV = PRIV_B; PUB = PUB_B;
 		chaos = 0;
 		for (int t = 0; t < nthr; t++) for (int i = 0; i < nops; i++) run_op(&T[t].ops[i], &T[t].base[i], t, i);
+		kidring = shared_kid; PRIV = PRIV_S; PUB = PUB_S; }
 		/* concurrent run */
 		chaos = 1;
 		pthread_barrier_init(&barrier, NULL, (unsigned)nthr);
@@ -186,6 +202,8 @@ int main(int argc, char **argv)
 		for (int t = 0; t < nthr; t++) pthread_join(tid[t], NULL);
 		pthread_barrier_destroy(&barrier);
 		chaos = 0;
+		PRIV = PRIV_B; PUB = PUB_B;
+		jwks_free(ring); jwks_free(kidring); ring = NULL; kidring = kidring_b;
 		for (int t = 0; t < nthr; t++) {
 			yields += T[t].yields;
 			for (int i = 0; i < nops; i++) {
@@ -224,7 +242,7 @@ int main(int argc, char **argv)
 		}
 		free(T); free(tid);
 	}
-	jwks_free(ring); jwks_free(kidring);
+	jwks_free(basering); jwks_free(kidring_b);
 	for (int k = 0; k < NKEY; k++) { free(TOK_OK[k]); free(TOK_BAD[k]); free(TOK_EXPIRED[k]); free(TOK_KID[k]); vh_key_free(&K[k]); }
 	printf("[\"END\"]\n");
 	return 0;
